@@ -242,3 +242,124 @@ def union_rule(ctx, res, rule):
                         "ranges would be deleted; %d of %d orderings" % (x, y, z, len(bad), rows), loc=loc))
     else:
         res.holds(rule, fn, "merged-within-union", "%d endpoint orderings, sorted or not" % rows)
+    # three ranges sorted by start, two steps of the loop: what is left covers exactly the union and no two ranges of the
+    # result overlap (overlapping ranges would be deleted twice over the overlap, back to front: the first deletion shifts the
+    # text the second one is applied to)
+    rows3 = 0
+    bad3 = None
+    rngs = [(a, b_) for a in range(4) for b_ in range(a, 4)]
+    for r0 in rngs:
+        for r1 in rngs:
+            for r2 in rngs:
+                if not (r0[0] <= r1[0] <= r2[0]):
+                    continue
+                rows3 += 1
+                vec = A.VecV([_rng(*r0), _rng(*r1), _rng(*r2)])
+                w = 0
+                okrun = True
+                for rd in (1, 2):
+                    I = A.Interp(P)
+                    I.lazy_locals = True
+                    holder = {}
+
+                    def run3(J, w=w, rd=rd):
+                        env = {rid: vec, wid: A.Lit(w), loop["pat"]["id"]: A.Lit(rd)}
+                        holder["env"] = env
+                        return J.ev(loop["body"], env)
+                    try:
+                        outs = I.explore(run3)
+                    except A.Cannot as e:
+                        res.cannot(rule, fn, "three-ranges", str(e), loc)
+                        return
+                    wv = holder["env"][wid]
+                    if len(outs) != 1 or not isinstance(wv, A.Lit):
+                        okrun = False
+                        break
+                    w = wv.v
+                if not okrun:
+                    res.cannot(rule, fn, "three-ranges", "the merge step is not a function of the endpoint ordering", loc)
+                    return
+                got = []
+                for r in vec.items[: w + 1]:
+                    s_, e_ = r.fields["start"], r.fields["end"]
+                    if not (isinstance(s_, A.Lit) and isinstance(e_, A.Lit)):
+                        res.cannot(rule, fn, "three-ranges", "range endpoints became symbolic", loc)
+                        return
+                    got.append((s_.v, e_.v))
+                pts = set()
+                overlap = False
+                for (s_, e_) in got:
+                    cur = set(range(s_, e_))
+                    if cur & pts:
+                        overlap = True
+                    pts |= cur
+                want = set(range(*r0)) | set(range(*r1)) | set(range(*r2))
+                # touching but not overlapping neighbours may stay separate; overlapping ones may not
+                strictly = any(a_[1] > b2[0] and b2[1] > a_[0] and a_ != b2 and a_[1] > a_[0] and b2[1] > b2[0] for i_, a_ in enumerate(got) for b2 in got[i_ + 1:])
+                if (pts != want or strictly) and bad3 is None:
+                    bad3 = ((r0, r1, r2), got)
+    res.extra.setdefault("ordering_rows", {})[fn + " (3 ranges)"] = rows3
+    if bad3:
+        res.add(Finding(rule, fn, "three-ranges", "merging the sorted ranges %s leaves %s: the result does not cover exactly their union with non-overlapping ranges "
+                        "(overlapping ranges are then deleted twice over the overlap)" % bad3, loc=loc))
+    else:
+        res.holds(rule, fn, "three-ranges", "%d sorted triples: result = union, no two ranges overlap" % rows3)
+
+
+def halves_disjoint(ctx, res, rule):
+    """merge_markers: after the head and the tail of an unwrapped element have absorbed the child markers that touch them, the
+    two are kept as a *pair* (head, spliced children, tail) only if the head ends strictly before the tail starts; otherwise
+    the two were joined by a child and one fused range is pushed.  A pair of overlapping halves would be deleted twice over
+    the overlap (text behind the element vanishes) - decided on the paths of the fold closure."""
+    P = ctx.lib
+    b = P.fn("Remover::merge_markers")
+    fn = fshort(b)
+    loc = T.loc(b["tree"])
+    folds = [n for n in T.nodes(b["tree"], "mcall") if n["name"] == "fold" and len(n["args"]) == 2 and T.peel(n["args"][1]).get("k") == "closure"]
+    if len(folds) != 1:
+        res.cannot(rule, fn, "halves-disjoint", "the fold over the range trees was not found", loc)
+        return
+    clo = T.peel(folds[0]["args"][1])
+    accs = []
+    I = A.Interp(P)
+    I.lazy_locals = True
+
+    def run(J):
+        env = {}
+        accs.append(A.VecV([], base=A.Sym("ACC")))
+        if not J.match_pat(clo["params"][0]["pat"], accs[-1], env) or not J.match_pat(clo["params"][1]["pat"], A.Sym("tree"), env):
+            raise A.Cannot("closure parameters")
+        return J.ev(clo["body"], env)
+    try:
+        outs = I.explore(run)
+    except A.Cannot as e:
+        res.cannot(rule, fn, "halves-disjoint", str(e), loc)
+        return
+    pairs = fused = bad = 0
+    for o, acc in zip(outs, accs):
+        paired = [x for x in acc.items if isinstance(x, A.Tuple) and len(x.items) == 2 and isinstance(x.items[1], A.Variant) and x.items[1].name == "Some"]
+        if len(paired) == 2:
+            pairs += 1
+            h, t_ = A.show(paired[0].items[0]), A.show(paired[1].items[0])
+            rel = None
+            for k, v in o["decisions"].items():
+                if k == "ord(%s.end, %s.start)" % (h, t_):
+                    rel = v
+                elif k == "ord(%s.start, %s.end)" % (t_, h):
+                    rel = {"<": ">", "=": "=", ">": "<"}[v]
+            if rel not in ("<", "="):
+                bad += 1
+                res.add(Finding(rule, fn, "halves-disjoint", "head and tail are kept as a pair on a path that does not establish head.end <= tail.start (relation: %s): "
+                                "overlapping halves are deleted twice over the overlap" % (rel or "not compared"), loc=loc))
+                break
+        elif len(paired) == 1:
+            bad += 1
+            res.add(Finding(rule, fn, "halves-disjoint", "only one half of an unwrapped element is pushed with a pair index", loc=loc))
+            break
+        elif any(isinstance(x, A.Tuple) for x in acc.items):
+            fused += 1
+    if not bad:
+        if pairs:
+            res.holds(rule, fn, "halves-disjoint", "%d pair path(s), each under head.end <= tail.start; %d path(s) push one (fused / un-paired) range" % (pairs, fused))
+        else:
+            res.cannot(rule, fn, "halves-disjoint", "no path pushes a head/tail pair", loc)
